@@ -206,15 +206,30 @@ def points(ctx, n):
         ctx.add('gp.sub_ops', pf.tok(), qf.tok(), cs(s),
                 expect=[E(vals.pt_mul(2, pf)), E(vals.pt_neg(pf)), E(vals.pt_add(pf, qf)), E(vals.pt_add(pf, vals.pt_neg(qf))),
                         E(vals.pt_mul(s, pf)), E(vals.pt_add(pf, qf)), B(pf.a == 0), ref.ed_compress(ref.IDENT).hex(),
-                        ref.ed_compress(ref.B).hex(), E(vals.pt_add(pf, qf)), E(vals.pt_add(pf, vals.pt_neg(qf))), E(pf)],
+                        ref.ed_compress(ref.B).hex(), E(vals.pt_add(pf, qf)), E(vals.pt_add(pf, vals.pt_neg(qf))), E(pf),
+                        # += by reference / by value, -= likewise, scalar * point, point * scalar, *= by reference / value,
+                        # ct_eq, ==, conditional_select(0 / 1), zeroize
+                        E(vals.pt_add(pf, qf)), E(vals.pt_add(pf, qf)), E(vals.pt_add(pf, vals.pt_neg(qf))), E(vals.pt_add(pf, vals.pt_neg(qf))),
+                        E(vals.pt_mul(s, pf)), E(vals.pt_mul(s, pf)), E(vals.pt_mul(s, pf)), E(vals.pt_mul(s, pf)),
+                        B(pf.a == qf.a), B(pf.a == qf.a), E(pf), E(qf), ref.ed_compress(ref.IDENT).hex()],
                 cls='ops:subgroup')
+        if rng.random() < 0.3:
+            # the same point twice (equality must hold between different internal representations: P and (P+Q)-Q)
+            ctx.add('gp.sub_ops', pf.tok(), pf.tok(), cs(s),
+                    expect=[E(vals.pt_mul(2, pf)), E(vals.pt_neg(pf)), E(vals.pt_mul(2, pf)), ref.ed_compress(ref.IDENT).hex(),
+                            E(vals.pt_mul(s, pf)), E(vals.pt_mul(2, pf)), B(pf.a == 0), ref.ed_compress(ref.IDENT).hex(),
+                            ref.ed_compress(ref.B).hex(), E(vals.pt_mul(2, pf)), ref.ed_compress(ref.IDENT).hex(), E(pf),
+                            E(vals.pt_mul(2, pf)), E(vals.pt_mul(2, pf)), ref.ed_compress(ref.IDENT).hex(), ref.ed_compress(ref.IDENT).hex(),
+                            E(vals.pt_mul(s, pf)), E(vals.pt_mul(s, pf)), E(vals.pt_mul(s, pf)), E(vals.pt_mul(s, pf)),
+                            'T', 'T', E(pf), E(pf), ref.ed_compress(ref.IDENT).hex()],
+                    cls='ops:subgroup')
         R = lambda x: ref.ristretto_encode(x.affine()).hex()
         pe = p if p.j % 2 == 0 else vals.Pt(p.a, p.j - 1)
         qe = q if q.j % 2 == 0 else vals.Pt(q.a, q.j - 1)
         ctx.add('gp.rs_ops', 'e' + pe.tok(), 'e' + qe.tok(), cs(s),
                 expect=[R(vals.pt_mul(2, pe)), R(vals.pt_neg(pe)), R(vals.pt_add(pe, qe)), R(vals.pt_add(pe, vals.pt_neg(qe))),
                         R(vals.pt_mul(s, pe)), R(vals.pt_add(pe, qe)), B(pe.a == 0), to32(0).hex(), ref.ristretto_encode(ref.B).hex(),
-                        R(pe), 'T'], cls='ops:ristretto')
+                        R(pe), 'T', R(pe)], cls='ops:ristretto')
 
 
 def make(seed, size_):
